@@ -13,6 +13,9 @@ from ir2c import (IntT, PtrT, ArrT, StructT, VoidT, FloatT, NamedT, FuncT, res, 
 class Unsupported(Exception): pass
 class PathAbort(Exception):  # assume(false)-like: path silently dropped
     pass
+class NeedFork(Exception):
+    """raised by a stub whose behaviour depends on a symbolic condition: the engine forks on it and re-executes the call on both sides"""
+    def __init__(s, cond): s.cond = cond
 class ProgramExit(Exception):
     def __init__(s, code): s.code = code
 class Violation(Exception):
@@ -684,7 +687,12 @@ class Engine:
         h = s.stubs.get(name[1:])
         if h is not None:
             s.stub_hits[name[1:]] = s.stub_hits.get(name[1:], 0) + 1
-            r = h(s, st, fr, I, A)
+            try:
+                r = h(s, st, fr, I, A)
+            except NeedFork as nf:
+                other = st.clone(); other.pc.append(z3.Not(nf.cond)); other.model = None
+                st.pc.append(nf.cond); st.model = None
+                return [other]
             if isinstance(r, str) and r == 'handled': return None
             if isinstance(r, tuple) and r and r[0] == 'forks': return r[1]
             if not (isinstance(r, tuple) and r and r[0] == 'not_handled'):
